@@ -877,15 +877,23 @@ def corpus_cases():
 
 
 def run(ck):
+    import time
+    t0 = time.time()
     ck.build_proofs()
+    t1 = time.time()
     structural(ck)
+    t2 = time.time()
     from harness.props import c08
     budget = QUICK if ck.tier != "thorough" else THOROUGH
     rng = random.Random(ck.seed * 15485863 + 18)
     cases = corpus_cases() + [gen_handoff_case(rng, c08) for _ in range(budget["handoff"])]
     d1, n1 = handoff_part(ck, cases, c08)
+    t3 = time.time()
     d2, n2 = snapshot_histories(ck, budget["hist"], rng)
+    t4 = time.time()
     d3, n3 = snapshot_e2e(ck, budget["e2e"], rng)
+    ck.notes["timing_s"] = {"proofs": round(t1 - t0, 1), "structural": round(t2 - t1, 1), "handoff": round(t3 - t2, 1),
+                            "snapshot_histories": round(t4 - t3, 1), "snapshot_e2e": round(time.time() - t4, 1)}
     for c in cases[:2]:
         ck.sample({k: c[k] for k in ("params", "steps", "cfg", "batch")})
     ck.cov["traces_validated_against_impl"] = n1 + n2 + n3
